@@ -74,6 +74,16 @@ def main():
                         'caught_by_own_check': own in o.get('caught_by', []),
                         'reports': {k: v['reports'][:2] for k, v in o.get('checks', {}).items() if v['exit'] == 1},
                         'broken': o.get('broken', []), 'applied': o['applied']}
+        summary[sid]['kind'] = meta.get('kind', 'breaking')
+        if meta.get('kind') == 'preserving':
+            print('REFACTOR %-9s property=%s %s%s' % (
+                sid, own, 'FALSE-ALARM by ' + ','.join(o['caught_by']) if o.get('caught_by') else 'silent',
+                ' ANALYSIS-BROKEN=%s' % o['broken'] if o.get('broken') else ''))
+            for k, v in o.get('checks', {}).items():
+                if v['exit'] != 0:
+                    for l in (v['reports'][:3] or [v.get('tail', '')[-200:]]):
+                        print('    %s: %s' % (k, l[:260]))
+            continue
         print('SEEDED %-10s property=%s caught_by=%s%s' % (
             sid, own, ','.join(o.get('caught_by', [])) or '-',
             ' BROKEN=%s' % o['broken'] if o.get('broken') else ''))
